@@ -1,6 +1,7 @@
 """One function per property: which units are analysed and which rules apply."""
 from .ir import load_unit, unit_errors, AnalysisBroken
 from . import rules_guard as RG
+from . import rules_atomic as RA
 
 
 def need_unit(ctx, name, **kw):
@@ -25,6 +26,7 @@ def C12(ctx):
     u = need_unit(ctx, "locks")
     RG.check_guards(ctx, u, GUARD_TABLE)
     RG.check_swap(ctx, u, ["frg::unique_lock", "frg::shared_lock"])
+    RA.check_spinlocks(ctx, u)
     return ("Structural part of C12 only: guard classes (unique_lock, shared_lock, qs lock_guard) are abstractly "
             "executed over their event CFGs with the ownership flag and the sequence of mutex calls as state. "
             "Not decided: mutual exclusion / FIFO hand-over over interleavings.")
